@@ -52,7 +52,13 @@ fn rel_close(a: f64, b: f64, tol: f64) -> bool {
 }
 
 /// check one (map, difficulty): equal lengths, finite non-negative values, re-aggregation
-fn check_map(map: &Beatmap, d: &Difficulty, label: &str, mods_bits: u32, out: &mut Vec<Value>) -> Option<usize> {
+/// the mod flags as the library itself reads them from the mod set (hook `GameMods::verif_flags`): a lazer set of
+/// another mode may not carry a legacy bit (e.g. Relax has no mania variant)
+fn mods_flag(mods: &rosu_pp::GameMods, name: &str) -> bool {
+    mods.verif_flags(true).iter().any(|(k, v)| *k == name && v == "true")
+}
+
+fn check_map(map: &Beatmap, d: &Difficulty, label: &str, mods: &rosu_pp::GameMods, out: &mut Vec<Value>) -> Option<usize> {
     let r = guarded(|| (d.strains(map), d.calculate(map)));
     let Ok((strains, attrs)) = r else {
         out.push(json!({"what": "panic", "label": label}));
@@ -84,12 +90,12 @@ fn check_map(map: &Beatmap, d: &Difficulty, label: &str, mods_bits: u32, out: &m
         (Strains::Osu(s), DifficultyAttributes::Osu(a)) => {
             let sum: f64 = s.flashlight.iter().sum();
             let mut want = sum.sqrt() * 0.0675;
-            if mods_bits & 4 != 0 {
+            if mods_flag(mods, "td") {
                 want = want.powf(0.8);
             }
-            if mods_bits & 128 != 0 {
+            if mods_flag(mods, "rx") {
                 want *= 0.7;
-            } else if mods_bits & 8192 != 0 {
+            } else if mods_flag(mods, "ap") {
                 want *= 0.4;
             }
             if !rel_close(want, a.flashlight, 1e-9) {
@@ -130,7 +136,7 @@ pub fn main(args: &[String]) -> i32 {
             let Ok(map) = Beatmap::from_bytes(text.as_bytes()) else { continue };
             let d = Difficulty::new().clock_rate(rate);
             let label = format!("{mode} times {:?} rate {rate}", sc.times);
-            if let Some(len) = check_map(&map, &d, &label, 0, &mut out) {
+            if let Some(len) = check_map(&map, &d, &label, &0u32.into(), &mut out) {
                 if len != sc.sections[mode] {
                     out.push(json!({"what": "section_count", "label": label, "expected": sc.sections[mode], "observed": len, "osu_text": text}));
                 }
@@ -174,7 +180,7 @@ pub fn main(args: &[String]) -> i32 {
             let Ok(map) = native.clone().convert(gm, &cfg.game_mods()) else { continue };
             rich += 1;
             let mut out = Vec::new();
-            check_map(&map, &d, &format!("rich {k} {mode}->{t} n={nobj} cfg {:?}", cfg), cfg.mods, &mut out);
+            check_map(&map, &d, &format!("rich {k} {mode}->{t} n={nobj} cfg {:?}", cfg), &cfg.game_mods(), &mut out);
             for mut m in out {
                 m["osu_text"] = json!(text);
                 mism.push(m);
